@@ -13,10 +13,11 @@ vars == <<tree, srcsel, invalid>>
 
 ZQuick == {-1, 0, 2, 40}
 ZThorough == {-1, 0, 1, 2, 3, 40}
-XPQuick == { <<0, 8>>, <<1, 3>>, <<4, 4>> }
-YPQuick == { <<0, 8>>, <<3, 3>>, <<2, 6>> }
-XPThorough == XPQuick \cup { <<5, 8>>, <<2, 6>>, <<3, 3>> }
-YPThorough == YPQuick \cup { <<4, 4>>, <<1, 3>> }
+\* <<8, 8>>: degenerate ON the antimeridian (lon = +180 on both sides); <<0, 0>> in Y: degenerate on the northern limit
+XPQuick == { <<0, 8>>, <<1, 3>>, <<4, 4>>, <<8, 8>> }
+YPQuick == { <<0, 8>>, <<3, 3>>, <<2, 6>>, <<0, 0>> }
+XPThorough == XPQuick \cup { <<5, 8>>, <<2, 6>>, <<3, 3>>, <<0, 0>> }
+YPThorough == YPQuick \cup { <<4, 4>>, <<1, 3>>, <<8, 8>> }
 
 GeoOpts == { [L0 |-> 2, w |-> xp[1], e |-> xp[2], n |-> yp[1], s |-> yp[2]] : xp \in XPairs, yp \in YPairs }
 Filters == ({ [op |-> "zoom", min |-> a, max |-> b] : a \in ZVals, b \in ZVals } \ { [op |-> "zoom", min |-> -1, max |-> -1] })
